@@ -64,6 +64,10 @@ func readThenErr(fn *ssa.Function, read *ssa.Call, exemptEdge func(cnd string, p
 		var vals []ssa.Value
 		switch x := in.(type) {
 		case *ssa.Call:
+			switch calleeName(&x.Call) {
+			case "bytes.Equal", "bytes.Compare", "bytes.HasPrefix", "bytes.HasSuffix", "bytes.Contains", "bytes.Index", "builtin.len", "builtin.cap":
+				return false // observers do not deliver the data anywhere
+			}
 			vals = x.Call.Args
 		case *ssa.Send:
 			return carries(x.X)
@@ -93,8 +97,8 @@ func readThenErr(fn *ssa.Function, read *ssa.Call, exemptEdge func(cnd string, p
 		case *ssa.Return:
 			// returning n together with err hands the bytes (already in the caller's buffer) to the caller
 			hasN, hasBuf := false, false
-			for _, r := range x.Results {
-				if dependsOn(r, n) {
+			for i, r := range x.Results {
+				if dependsOn(r, n) || dependsOn(returnedValue(x, i, nil), n) {
 					hasN = true
 				}
 				_ = hasBuf
